@@ -432,21 +432,21 @@ def r9_client_tries_response_first(ctx):
     and in the array-element classification of handle_recv_message."""
     from . import c05
     F, R = ctx.F, ctx.R
-    b = F.one(c05.HRM)
-    R.fn(b)
-    calls = c05._classifier_calls(b)
-    from .common import enclosing_loop_next
+    from .common import client_message_handlers, enclosing_loop_next
+    fam = client_message_handlers(F)
     groups = {"single": [], "element": []}
-    for c in calls:
-        groups["element" if enclosing_loop_next(b, c.bb) is not None else "single"].append(c)
+    for hb in fam:
+        R.fn(hb)
+        for c in c05._classifier_calls(hb):
+            groups["element" if enclosing_loop_next(hb, c.bb) is not None else "single"].append(c)
     for label, lst in groups.items():
-        lst = sorted(lst, key=lambda c: len(b.dom[c.bb]))
+        lst = sorted(lst, key=lambda c: (fam.index(c.body), len(c.body.dom[c.bb])))
         tys = [c05._norm_ty(c.ga[-1]) for c in lst]
         first_is_response = bool(tys) and "Response<" in tys[0] and "Notification" not in tys[0]
         # ... and unconditionally: every other attempt is made only after the Response attempt ran (no pre-filter that
         # skips it, e.g. sniffing the raw bytes for "method" - a result may contain that text)
         if first_is_response and len(lst) > 1:
-            skipped = [c for c in lst[1:] if not b.dominates(lst[0].bb, c.bb)]
+            skipped = [c for c in lst[1:] if c.body is not lst[0].body or not c.body.dominates(lst[0].bb, c.bb)]
             R.check(not skipped, "C15.R9", "client-%s:response-attempt-unconditional" % label, "every %s message is first tried as a Response" % label, "in the client's %s classification the Response attempt can be skipped (a later attempt is reachable without it): a response whose payload happens to satisfy the pre-filter (e.g. contains the text \"method\") is never decoded as a response and the read task fails" % label, where(skipped[0]) if skipped else None)
         R.check(first_is_response, "C15.R9", "client-%s:response-first" % label, "the %s classification tries Response first" % label, "the client's %s classification tries %s before Response: a valid response that carries an extra `method` member is taken for a notification and its call never completes (the HTTP client, which parses Response directly, still accepts it)" % (label, [short(t) for t in tys[:3]]), where(lst[0]) if lst else None)
 
